@@ -671,8 +671,9 @@ Proof.
         with (eval lhs + (B ^ Z.of_nat (ka + kb - p) * (eval a2 * eval b2)) * B ^ Z.of_nat p) by ring.
       rewrite Z.mod_add by lia. symmetry. apply Z.mod_small. exact Hlb.
     - symmetry. apply Z.leb_le. rewrite HP, Hdiv.
-      assert (H1 : 1 <= eval a2 * eval b2) by nia.
-      assert (H2 : 1 <= B ^ Z.of_nat (ka + kb - p) * (eval a2 * eval b2)) by nia.
+      assert (H1 : 1 <= eval a2 * eval b2) by (clear - Ha2pos Hb2pos; nia).
+      assert (H2 : 1 <= B ^ Z.of_nat (ka + kb - p) * (eval a2 * eval b2)).
+      { match goal with Hq : 0 < B ^ Z.of_nat (ka + kb - p) |- _ => clear - Hq H1 end. nia. }
       rewrite <- Z.mul_assoc.
       remember (B ^ Z.of_nat (ka + kb - p) * (eval a2 * eval b2)) as X eqn:EX.
       clear - H2 HBp Hlb. nia. }
@@ -714,7 +715,7 @@ Proof.
   { rewrite HP, Hevl, <- Hp, ET2. ring. }
   assert (HBn : B ^ n = B ^ Z.of_nat p * B ^ m).
   { rewrite Hn. rewrite Z.pow_add_r by lia. reflexivity. }
-  assert (HT2 : 0 <= T2) by (subst T2; nia).
+  assert (HT2 : 0 <= T2) by (subst T2; clear - Hl2b Ha2pos Hb2pos; nia).
   split; [rewrite Elhs, !app_length; lia|]. split; [apply Forall_app; auto|]. split.
   - rewrite eval_app, <- Ep. rewrite Hew, HT, HBn. symmetry. apply mod_low_high; lia.
   - rewrite Ho, HT, HBn. symmetry. apply leb_low_high; lia.
